@@ -1,2 +1,547 @@
-// Package c12: (not built yet)
+// Package c12: literal template text and string literals are represented faithfully; the template
+// scanner and the expression parser agree on where an expression ends.
+//
+// Exploration: every string up to a length bound over an 11-character alphabet is (i) evaluated as
+// template text and compared with the statement's rule (a small reference function), and (ii) written
+// as a quoted, escaped literal into six expression positions and evaluated; every pair of shorter
+// strings is written into three two-literal positions.
 package c12
+
+import (
+	"encoding/json"
+	"fmt"
+	"math/rand"
+	"sort"
+	"strconv"
+	"strings"
+	"time"
+
+	"verif/mc"
+)
+
+type bounds struct{ single, pairS, pairT int }
+
+func boundsOf(tier string) bounds {
+	if tier == "quick" {
+		return bounds{6, 3, 3}
+	}
+	return bounds{7, 4, 3}
+}
+
+// allStrings returns every string of exactly n characters over the alphabet, in index order.
+func allStrings(n int) []string {
+	out := []string{""}
+	for i := 0; i < n; i++ {
+		next := make([]string, 0, len(out)*len(alphabet))
+		for _, p := range out {
+			for _, r := range alphabet {
+				next = append(next, p+string(r))
+			}
+		}
+		out = next
+	}
+	return out
+}
+
+type replay struct {
+	Kind     string `json:"kind"` // body | literal
+	Form     string `json:"form,omitempty"`
+	Pair     bool   `json:"pair,omitempty"`
+	S        string `json:"s"`
+	T        string `json:"t,omitempty"`
+	Template string `json:"template,omitempty"`
+	Key      string `json:"key,omitempty"`
+}
+
+// shrinker finds, for a failing case, a case from which no single character can be deleted without
+// that kind of failure (its class) disappearing. known holds the verdicts of the cases already
+// executed in this unit of the enumeration (shorter cases come first), everything else is executed
+// on demand. A verdict is the set of failure classes the case shows.
+type shrinker struct {
+	eval  func(string) []string
+	known map[string][]string
+	min   map[string]string
+}
+
+func newShrinker(eval func(string) []string) *shrinker {
+	return &shrinker{eval: eval, known: map[string][]string{}, min: map[string]string{}}
+}
+
+func (k *shrinker) reset() { k.known, k.min = map[string][]string{}, map[string]string{} }
+
+func has(classes []string, class string) bool {
+	for _, c := range classes {
+		if c == class {
+			return true
+		}
+	}
+	return false
+}
+
+func (k *shrinker) failing(s, class string) bool {
+	v, ok := k.known[s]
+	if !ok {
+		v = k.eval(s)
+		k.known[s] = v
+	}
+	return has(v, class)
+}
+
+func (k *shrinker) minimal(s, class string) string {
+	mk := class + "\x01" + s
+	if m, ok := k.min[mk]; ok {
+		return m
+	}
+	r := []rune(s)
+	res := s
+	for i := range r {
+		if r[i] == 0 {
+			continue // the separator of a pair case is not a character of the case
+		}
+		s2 := string(r[:i]) + string(r[i+1:])
+		if k.failing(s2, class) {
+			res = k.minimal(s2, class)
+			break
+		}
+	}
+	if res == s {
+		// no single character can go: try two at once (a pair of parentheses, a quote and its backslash)
+	outer:
+		for i := range r {
+			for j := i + 1; j < len(r); j++ {
+				if r[i] == 0 || r[j] == 0 {
+					continue
+				}
+				s2 := string(r[:i]) + string(r[i+1:j]) + string(r[j+1:])
+				if k.failing(s2, class) {
+					res = k.minimal(s2, class)
+					break outer
+				}
+			}
+		}
+	}
+	k.min[mk] = res
+	return res
+}
+
+type runner struct {
+	c        *mc.Ctx
+	symCases map[rune]int64
+	facts    map[string]int64
+	keys     map[string]bool
+}
+
+func (r *runner) fact(name string) { r.facts[name]++ }
+
+func special(s string) bool { return strings.ContainsAny(s, "\"\\()@") }
+
+func (r *runner) noteString(s string, n int64) {
+	seen := map[rune]bool{}
+	for _, ch := range s {
+		if !seen[ch] {
+			seen[ch] = true
+			r.symCases[ch] += n
+		}
+	}
+	if s == "" {
+		r.fact("string:empty")
+	}
+	if strings.Contains(s, `"`) {
+		r.fact("string:has-quote")
+	}
+	if strings.Contains(s, `\`) {
+		r.fact("string:has-backslash")
+	}
+	if strings.HasSuffix(s, `\`) {
+		r.fact("string:ends-with-backslash")
+	}
+	if strings.HasSuffix(s, `\\`) {
+		r.fact("string:ends-with-two-backslashes")
+	}
+	if strings.ContainsAny(s, "()") {
+		r.fact("string:has-parenthesis")
+	}
+	if strings.Contains(s, "@") {
+		r.fact("string:has-at")
+	}
+	if strings.Contains(s, "\n") {
+		r.fact("string:has-newline")
+	}
+	if strings.Contains(s, "é") {
+		r.fact("string:has-non-ascii")
+	}
+	if strings.ContainsRune(s, 0x1F600) {
+		r.fact("string:has-non-bmp")
+	}
+}
+
+func (r *runner) violation(key, what string, rp replay) {
+	if !r.keys[key] && len(r.keys) >= 300 {
+		key = "overflow:more-than-300-distinct-signatures-in-one-worker"
+	}
+	r.keys[key] = true
+	rp.Key = key
+	r.c.Violation(key, what, rp)
+}
+
+// ---- template text ----------------------------------------------------------------------------------
+
+func (r *runner) body(s string, sh *shrinker) {
+	c := r.c
+	c.Inc("evaluations")
+	c.Inc("cases:template-text")
+	if special(s) {
+		c.Inc("distinct_nontrivial")
+	}
+	f := checkBody(s)
+	sh.known[s] = nil
+	if f != nil {
+		sh.known[s] = []string{f.class}
+	}
+	// what kind of text was it (vacuity facts), by the reference
+	if strings.Contains(s, "@") {
+		_, exact, exprs := refTemplate(baseCtx, s)
+		if !exact {
+			r.fact("text:unclosed-expression")
+		}
+		for _, e := range exprs {
+			_, ok := evalExpression(baseCtx, e.expr)
+			switch {
+			case e.ident && ok:
+				r.fact("text:identifier-evaluated")
+			case e.ident:
+				r.fact("text:identifier-fails")
+			case ok:
+				r.fact("text:expression-evaluated")
+				if strings.Contains(e.expr, `"`) {
+					r.fact("text:expression-with-string-literal-evaluated")
+				}
+				if strings.Contains(e.expr, `\`) {
+					r.fact("text:expression-with-backslash-evaluated")
+				}
+			default:
+				r.fact("text:expression-fails")
+			}
+		}
+		if strings.Contains(s, "@@") {
+			r.fact("text:double-at")
+		}
+		if strings.Contains(s, "@é") || strings.Contains(s, "@aé") {
+			r.fact("text:at-before-name-that-is-not-allowed")
+		}
+		if strings.HasSuffix(s, "@") {
+			r.fact("text:at-at-end")
+		}
+		if strings.Contains(s, "@.") || strings.Contains(s, "@ ") || strings.Contains(s, "@\"") {
+			r.fact("text:at-before-other-character")
+		}
+		if len(exprs) == 0 && exact {
+			c.Outcome("text:literal-at-only")
+		} else if exact {
+			c.Outcome("text:with-expressions")
+		} else {
+			c.Outcome("text:unclosed")
+		}
+	} else {
+		c.Outcome("text:no-at")
+	}
+	if f == nil {
+		return
+	}
+	m := sh.minimal(s, f.class)
+	key := "text:" + f.class + ":min=" + strconv.Quote(m)
+	c.Outcome("text:FAIL:" + f.class)
+	r.violation(key, f.what+"\nsmallest failing text of this shape: "+strconv.Quote(m), replay{Kind: "body", S: s, Template: s})
+}
+
+// ---- literals ---------------------------------------------------------------------------------------
+
+// failures runs every position of one kind (one literal / two literals) and returns the distinct
+// failure classes with the first failure of each.
+func failures(pair bool, s, t string, each func(f *form, fl *failure)) (classes []string, first map[string]*failure, firstForm map[string]*form) {
+	for i := range forms {
+		f := &forms[i]
+		if f.pair != pair {
+			continue
+		}
+		fl := checkLiteral(f, s, t)
+		if each != nil {
+			each(f, fl)
+		}
+		if fl != nil && !has(classes, fl.class) {
+			classes = append(classes, fl.class)
+			if first == nil {
+				first, firstForm = map[string]*failure{}, map[string]*form{}
+			}
+			first[fl.class], firstForm[fl.class] = fl, f
+		}
+	}
+	return
+}
+
+func splitPair(st string) (string, string) {
+	i := strings.IndexByte(st, 0)
+	return st[:i], st[i+1:]
+}
+
+// minSet renders the smallest failing strings as a set (which of two literals holds which string is
+// not part of the signature).
+func minSet(parts ...string) string {
+	var q []string
+	for _, p := range parts {
+		if p != "" && !has(q, strconv.Quote(p)) {
+			q = append(q, strconv.Quote(p))
+		}
+	}
+	sort.Strings(q)
+	return "{" + strings.Join(q, ",") + "}"
+}
+
+func (r *runner) single(s string, sh *shrinker) {
+	c := r.c
+	n := int64(0)
+	classes, first, firstForm := failures(false, s, "", func(f *form, fl *failure) {
+		n++
+		if fl != nil {
+			c.Outcome("literal:FAIL:" + fl.class)
+		} else {
+			c.Outcome("literal:ok")
+		}
+	})
+	c.Add("evaluations", n)
+	c.Add("cases:one-literal", n)
+	if special(s) {
+		c.Add("distinct_nontrivial", n)
+	}
+	r.noteString(s, n+1)
+	sh.known[s] = classes
+	for _, cl := range classes {
+		m := sh.minimal(s, cl)
+		r.violation("literal:"+cl+":min="+minSet(m), first[cl].what+"\nsmallest string that fails in this way: "+strconv.Quote(m), replay{Kind: "literal", Form: firstForm[cl].name, S: s})
+	}
+}
+
+func (r *runner) pair(s, t string, sh *shrinker) {
+	c := r.c
+	n := int64(0)
+	classes, first, firstForm := failures(true, s, t, func(f *form, fl *failure) {
+		n++
+		if fl != nil {
+			c.Outcome("pair:FAIL:" + fl.class)
+		} else {
+			c.Outcome("pair:ok")
+		}
+	})
+	c.Add("evaluations", n)
+	c.Add("cases:two-literals", n)
+	if special(s) || special(t) {
+		c.Add("distinct_nontrivial", n)
+	}
+	if strings.HasSuffix(s, `\`) && t != "" {
+		r.fact("pair:first-ends-with-backslash")
+	}
+	if strings.HasSuffix(t, `\`) {
+		r.fact("pair:second-ends-with-backslash")
+	}
+	if s == t && s != "" {
+		r.fact("pair:equal-nonempty")
+	}
+	if strings.Contains(s, `"`) && strings.Contains(t, `"`) {
+		r.fact("pair:both-contain-quotes")
+	}
+	sh.known[s+"\x00"+t] = classes
+	for _, cl := range classes {
+		ms, mt := splitPair(sh.minimal(s+"\x00"+t, cl))
+		r.violation("literal:"+cl+":min="+minSet(ms, mt), first[cl].what+"\nsmallest strings that fail in this way: "+strconv.Quote(ms)+" and "+strconv.Quote(mt), replay{Kind: "literal", Form: firstForm[cl].name, Pair: true, S: s, T: t})
+	}
+}
+
+func run(c *mc.Ctx) {
+	b := boundsOf(c.Tier)
+	r := &runner{c: c, symCases: map[rune]int64{}, facts: map[string]int64{}, keys: map[string]bool{}}
+	c.Add("evaluations", 0)
+	bodySh := newShrinker(func(s string) []string {
+		if f := checkBody(s); f != nil {
+			return []string{f.class}
+		}
+		return nil
+	})
+	litSh := newShrinker(func(s string) []string { cl, _, _ := failures(false, s, "", nil); return cl })
+	pairSh := newShrinker(func(st string) []string { s, t := splitPair(st); cl, _, _ := failures(true, s, t, nil); return cl })
+
+	// the unit of work is a suffix: all strings ending in it, shortest first, so that the case with
+	// one character of the prefix deleted has already been executed by the same worker
+	byLen := make([][]string, 8)
+	for n := 0; n <= 4; n++ {
+		byLen[n] = allStrings(n)
+	}
+	unit := 0
+	perm := func(n int) []int {
+		p := make([]int, n)
+		for i := range p {
+			p[i] = i
+		}
+		if c.Seed != 0 {
+			rand.New(rand.NewSource(c.Seed)).Shuffle(n, func(i, j int) { p[i], p[j] = p[j], p[i] })
+		}
+		return p
+	}
+	for n := 0; n < 3 && n <= b.single; n++ {
+		for _, s := range byLen[n] {
+			unit++
+			if !c.Mine(unit) {
+				continue
+			}
+			bodySh.reset()
+			litSh.reset()
+			r.body(s, bodySh)
+			r.single(s, litSh)
+		}
+	}
+	capped := false
+	suffixes := byLen[3]
+	for _, ui := range perm(len(suffixes)) {
+		if !c.Mine(ui) {
+			continue
+		}
+		if c.Expired() {
+			capped = true
+			break
+		}
+		u := suffixes[ui]
+		bodySh.reset()
+		litSh.reset()
+		var gen func(p string, left int)
+		gen = func(p string, left int) {
+			if left == 0 {
+				s := p + u
+				r.body(s, bodySh)
+				r.single(s, litSh)
+				return
+			}
+			for _, ch := range alphabet {
+				gen(p+string(ch), left-1)
+			}
+		}
+		for pl := 0; pl+3 <= b.single; pl++ {
+			gen("", pl)
+		}
+		c.Inc("suffix_units")
+	}
+
+	// pairs: the unit is the second string
+	var ts []string
+	for n := 0; n <= b.pairT; n++ {
+		ts = append(ts, byLen[n]...)
+	}
+	for _, ti := range perm(len(ts)) {
+		if capped {
+			break
+		}
+		if !c.Mine(ti) {
+			continue
+		}
+		if c.Expired() {
+			capped = true
+			break
+		}
+		t := ts[ti]
+		pairSh.reset()
+		for n := 0; n <= b.pairS; n++ {
+			for _, s := range byLen[n] {
+				r.pair(s, t, pairSh)
+			}
+		}
+		c.Inc("pair_units")
+	}
+	if capped {
+		c.Cap("time budget reached: units (all strings with one 3-character suffix; all first strings for one second string) are taken in a fixed order and every unit started before the cap was completed")
+	}
+	for ch, n := range r.symCases {
+		c.Add("symbol:"+strconv.QuoteRune(ch), n)
+		c.Fact("symbol:" + strconv.QuoteRune(ch))
+	}
+	for f, n := range r.facts {
+		c.Add("fact:"+f, n)
+		c.Fact(f)
+	}
+}
+
+func replayFn(c *mc.Ctx, raw json.RawMessage) (string, bool) {
+	var rp replay
+	if err := json.Unmarshal(raw, &rp); err != nil {
+		return "bad replay: " + err.Error(), false
+	}
+	if rp.Kind == "body" {
+		out, failed, pn := evalTemplate(baseCtx, rp.S)
+		want, exact, _ := refTemplate(baseCtx, rp.S)
+		desc := fmt.Sprintf("template text %q\nEvaluator.Template: %q (error: %v) %s\nstatement's rule:   %q (whole text specified: %v)\nscanner tokens: %s\n", rp.S, out, failed, pn, want, exact, describeToks(scan(rp.S)))
+		f := checkBody(rp.S)
+		if f != nil {
+			desc += "PROBLEM " + f.class + ": " + f.what + "\n"
+		}
+		return desc, f != nil
+	}
+	var desc strings.Builder
+	violated := false
+	for i := range forms {
+		f := &forms[i]
+		if f.pair != rp.Pair {
+			continue
+		}
+		fl := checkLiteral(f, rp.S, rp.T)
+		if fl != nil {
+			fmt.Fprintf(&desc, "PROBLEM %s: %s\n", fl.class, fl.what)
+			violated = true
+		} else {
+			fmt.Fprintf(&desc, "form %s with s=%q t=%q: as expected\n", f.name, rp.S, rp.T)
+		}
+	}
+	return desc.String(), violated
+}
+
+func guards(r *mc.Result, tier string) []string {
+	var f []string
+	for _, ch := range alphabet {
+		if r.Facts["symbol:"+strconv.QuoteRune(ch)] == 0 {
+			f = append(f, "no case contained the character "+strconv.QuoteRune(ch))
+		}
+	}
+	for _, fact := range []string{
+		"string:empty", "string:has-quote", "string:has-backslash", "string:ends-with-backslash", "string:ends-with-two-backslashes", "string:has-parenthesis",
+		"string:has-at", "string:has-newline", "string:has-non-ascii", "string:has-non-bmp",
+		"text:unclosed-expression", "text:identifier-evaluated", "text:identifier-fails", "text:expression-evaluated", "text:expression-fails",
+		"text:expression-with-string-literal-evaluated", "text:double-at", "text:at-before-name-that-is-not-allowed", "text:at-at-end", "text:at-before-other-character",
+		"pair:first-ends-with-backslash", "pair:second-ends-with-backslash", "pair:equal-nonempty", "pair:both-contain-quotes",
+	} {
+		if r.Facts[fact] == 0 {
+			f = append(f, "never observed: "+fact)
+		}
+	}
+	for _, k := range []string{"cases:template-text", "cases:one-literal", "cases:two-literals"} {
+		if r.Counters[k] < 100000 {
+			f = append(f, fmt.Sprintf("counter %s = %d, expected at least 100000", k, r.Counters[k]))
+		}
+	}
+	return f
+}
+
+func init() {
+	mc.Register(&mc.Check{
+		ID:    "C12",
+		Level: "exploration",
+		Rule: "every string of length <= 6 (quick) / 7 (thorough) over the 11 characters {quote, backslash, (, ), @, a, space, newline, é, U+1F600, .} is (i) evaluated as template text by Evaluator.Template in a context binding a and compared with the statement's rule (reference function: `@@` -> `@`; `@(`..matching `)` and `@`+allowed name are expressions; any other `@` literal; where each expression's value comes from the real evaluator) and each expression the scanner cuts is checked against the parser's lexer for closedness; " +
+			"(ii) written with strconv.Quote into `@(Q)`, `x @(Q) y`, `@a@(Q)@a`, `@(Q)@(Q)`, `@(f(Q))`, `@(o[Q])` and expected to evaluate to exactly the string; (iii) every pair of strings of length <= 3 x <= 3 (quick) / <= 4 x <= 3 (thorough) is written into `@(Q & T)`, `@(Q = T)`, `@(f(Q, T))`. " +
+			"evaluations = executed cases (string x position); distinct_nontrivial = cases whose string(s) contain at least one of quote, backslash, parenthesis, @ (every case is a different template).",
+		Assumptions: []string{
+			"bounded: alphabet and lengths as stated; allowed top-level names are a and f; one environment",
+			"'written as a quoted, escaped string literal' is read as Go's strconv.Quote, the form goflow itself prints literals in",
+			"text after an `@(` that is never closed is unspecified by the statement: only the output before it is compared",
+			"an expression that fails contributes nothing to the output (Evaluator.Template's documented behaviour); the body around it is still compared",
+		},
+		Run:    run,
+		Replay: replayFn,
+		Guards: guards,
+		Budget: map[string]time.Duration{"quick": 4 * time.Minute, "thorough": 25 * time.Minute},
+	})
+}
